@@ -209,6 +209,10 @@ func Discharge(results []*FuncResult, timeoutMs int, seed int, all bool, keepQue
 				if lr.status == "unsat" {
 					r, done = lr, true
 					r.solver += "+inst"
+				} else if lr.status == "sat" {
+					// a model of the weakened query: only a candidate counterexample, to be
+					// confirmed (or not) by replaying it on the real code
+					o.CandQuery, o.CandSolver = lq, lr.solver
 				}
 			}
 			if !done {
